@@ -41,6 +41,8 @@ pub use nucleo_matcher::{chars, Config, Matcher, Utf32Str, Utf32String};
 mod boxcar;
 mod par_sort;
 pub mod pattern;
+#[cfg(feature = "verif-hooks")]
+pub mod verif;
 mod worker;
 
 #[cfg(test)]
